@@ -34,7 +34,11 @@ RULE = ("operations: every row of specificErrors (regenerated from the source) a
         "(c17.req / c17.req2: MakeRequest against a home peer that answers rpc_error <every kind of code> PHONE_MIGRATE_n, "
         "data centre n configured through SetDCList to a second peer of the harness / not configured / other texts; the "
         "second peer answers pong or an error of its own); two MTProto values in one process, one configured before / "
-        "between / after the other (c17.two). distinct = distinct operation "
+        "between / after the other (c17.two); every kind of call through that path (c17.home / c17.call: MakeRequest with an "
+        "object or Bool answer, MakeRequestWithHintToDecoder with bare Vector<long> / Vector<int> / Vector<object> answers of "
+        "0..20000 elements, delivered plain / gzip_packed / in a msg_container / both, answered at the home peer and at the data "
+        "centre the request is repeated at after PHONE_MIGRATE_n: the caller gets exactly the value that peer made for this "
+        "request, as the Go type that kind of call returns). distinct = distinct operation "
         "lines; each is compared with the Lean model and judged by the independent oracle of the property text")
 
 GEN_LEAN = os.path.join(vlib.LEAN, "Mtv", "Gen", "ErrTables.lean")
